@@ -201,6 +201,7 @@ func Quiesce()                             {}
 func ExpectDeadlock(id string)             {}
 func SleepBlocks(on bool)                  {}
 func EagerOffsets(on bool)                 {}
+func HTTPServeCalls() int                  { return 0 }
 func WakeSleepers()                        {}
 
 // WouldBlock natively: run f in a goroutine and wait briefly.
